@@ -125,6 +125,14 @@ def more_fields(f: dict) -> None:
         (('source 10.0.0.1/32;', 'action sample-terminal;'), True, {'kind': 'flow', 'afi': 1, 'comps': [src4], 'ecs': [FL.ec_action(True, True).hex()]}),
     ]  # fmt: skip
 
+    def ports(vals):
+        return 'source 10.0.0.1/32; destination-port [ ' + ' '.join(f'={v}' for v in vals) + ' ];', [5, [[False, False, False, True, v, None] for v in vals]]
+
+    # rules whose NLRI is 239, 240 and 241 bytes: the length field goes from one byte to two (0xF0nn) at 240
+    for vals in ([200, 201] + list(range(1000, 1076)), [200] + list(range(1000, 1077)), list(range(1000, 1078))):
+        text, comp = ports(vals)
+        f['flow'].append(((text, 'discard;'), True, {'kind': 'flow', 'afi': 1, 'comps': [src4, comp], 'ecs': d0}))
+
     def vp(e=5, b=10702, o=1, sz=8, rd='65000:1'):
         return f'rd {rd} endpoint {e} base {b} offset {o} size {sz} next-hop 10.0.0.9'
 
